@@ -929,7 +929,7 @@ Qed.
 
 (* outside the domain the Python raises: e.g. a zero slice count or a level beyond the top *)
 Lemma dom_false_examples :
-  let st := mk_pystate 5 1 1 3 4 2 0 1 1 0 0 in
+  let st := set_st_dwt_depth (set_st_dwt_depth_ho (set_st_luma_width empty_pystate 5) 1) 1 in
   slice_left_dom st 0 Str_Y 0 = false /\ slices_have_same_dimensions_dom st = false /\
   subband_width_dom st 4 Str_Y = false.
 Proof. vm_compute. repeat split; reflexivity. Qed.
